@@ -281,6 +281,9 @@ func (r *Report) Finish(verifDir, tier string, seed int64, start time.Time, know
 func (r *Report) Summary() string {
 	h, v, u := 0, 0, 0
 	for _, o := range r.Obligations {
+		if os.Getenv("VCHECK_LIST") != "" {
+			fmt.Printf("OBL %v %s|%s @%s :: %s\n", o.Verdict, o.Rule, o.Construct, o.Pos, o.Detail)
+		}
 		switch o.Verdict {
 		case Holds:
 			h++
